@@ -6,7 +6,7 @@ from fractions import Fraction
 
 import numpy as np
 
-from harness.common import q2s, s2q, run_driver, lean_obligations, ulps
+from harness.common import generated_steps, q2s, s2q, run_driver, lean_obligations, ulps
 from harness.translate import translator_obligations
 
 MODULE = 'Ndt.Props.C10'
@@ -28,6 +28,8 @@ def run(ctx):
     from numdifftools.limits import CStepGenerator
     from numdifftools.finite_difference import LogRule
     from numdifftools import finite_difference as fdm
+    from harness.common import rule_cache
+    RC = rule_cache(fdm)
     import numdifftools as nd
     translator_obligations(ctx, ['StepGen.', 'default_scale', 'defaults', 'basic_generators', 'LogRule.richardson_step',
                                  'LogRule.method_order', 'LogRule.num_terms', 'LogRule._complex_high_order'])
@@ -88,7 +90,7 @@ def run(ctx):
     out = run_driver(lines, 'C10c')
     for (m, n, o), line in zip(cgrid, out):
         eng['cases'] += 1
-        fdm.FD_RULES.clear()
+        RC.clear()
         d = nd.Derivative(np.exp, n=n, method=m, order=o)
         if m == 'central2':      # Derivative has no central2 difference function; only the rule/generator logic is compared
             r = LogRule(n=n, method=m, order=o)
@@ -97,7 +99,7 @@ def run(ctx):
             steps = list(sgen())
             size = r.rule(sgen.step_ratio).size
         else:
-            steps, ratio = d._get_steps(np.asarray(1.0))
+            steps, ratio = generated_steps(d, np.asarray(1.0))
             size = d.fd_rule.rule(ratio).size
         msize, mcount = (int(x) for x in line.split())
         if (size, len(steps)) == (msize, mcount) and size - 1 < len(steps):
@@ -107,7 +109,7 @@ def run(ctx):
             if not size - 1 < len(steps):
                 ctx.violation('the default step count is smaller than the rule consumes', method=m, n=n, order=o,
                               rule_size=size, num_steps=len(steps))
-    fdm.FD_RULES.clear()
+    RC.clear()
 
     # ---------------- engine `steps.sequence`: emitted lists vs the model, random options -------------------------
     eng = ctx.engine('steps.sequence')
